@@ -245,7 +245,8 @@ TypeHashPre(T) ==
     [] T.k = "option" -> HS("Option") \o TypeHashPre(T.elem)
     [] T.k = "bound" -> HS("core::ops::Bound") \o TypeHashPre(T.elem)
     [] T.k = "cflow" -> HS("core::ops::ControlFlow") \o TypeHashPre(T.b) \o TypeHashPre(T.c)
-    [] T.k = "range" -> HS("core::ops::" \o T.rk) \o TypeHashPre(T.elem)
+    [] T.k = "range" ->   \* stringify!(core::ops::$ty) inside impl_ranges!: the tokens are spaced
+         HS("core :: ops :: " \o T.rk) \o TypeHashPre(T.elem)
     [] T.k = "struct" ->
          HS(IF T.zc THEN "ZeroCopy" ELSE "DeepCopy")
          \o Cat([i \in 1..Len(T.consts) |-> ConstTok(T.consts[i])])
